@@ -84,6 +84,12 @@ def unstructurable(rng: random.Random) -> list[dict]:
     return out
 
 
+def fell_back_unmarked(text: str) -> bool:
+    """the text does not BEGIN with the marker line but carries it (or the fallback's warning comment) further down: the decompiler did
+    fall back - the outcome machine then rejects the first line"""
+    return decomp.MARKER.strip() in text or "Failed to normally decompile this script" in text
+
+
 def main() -> int:
     rep = common.Report("C06")
     rng = random.Random(common.seed() * 577 + 6)
@@ -101,7 +107,7 @@ def main() -> int:
     for r in recs:
         if r["status"] != "ok":
             trace = ["start", "raised"]
-        elif not r["fallback"]:
+        elif not r["fallback"] and not fell_back_unmarked(r["text"]):
             trace = ["start", "structured"]
         else:
             trace = ["start", "abort", "fallback"]
@@ -111,8 +117,8 @@ def main() -> int:
                 trace.append("recompile-raised")
         rc = r["recomp"] or {}
         tcases.append({"trace": trace, "firstLine": r["text"].split("\n", 1)[0] if r["text"] else "",
-                       "inp": r["inp"] if r["fallback"] else [], "out": rc.get("ops", []) if r["fallback"] else [],
-                       "infoIn": r["infoIn"] if r["fallback"] else [], "infoOut": rc.get("infos", []) if r["fallback"] else []})
+                       "inp": r["inp"] if trace[1] == "abort" else [], "out": rc.get("ops", []) if trace[1] == "abort" else [],
+                       "infoIn": r["infoIn"] if trace[1] == "abort" else [], "infoOut": rc.get("infos", []) if trace[1] == "abort" else []})
 
     def validate(tc, tag):
         path = os.path.join(common.scratch(), f"c06-{tag}.json")
